@@ -260,6 +260,7 @@ def run(chk, prog, tier):
     extent_common.check_scan_extent(chk, prog)
     c16.check_stale_count(chk, prog)
     c16.check_stale_counted(chk, prog)
+    c16.check_row_retired(chk, prog)
     c14.check_siblings(chk, prog)
     c14.check_container_indexed(chk, prog)
     check_cutoff_pure(chk, prog)
